@@ -8,7 +8,7 @@ CONSTANTS
   MaxList = 2
   Ops = {}
   SetKeys = {}
-  Rts <- RollTypes
+  Rts = {"CskRoll", "AlgorithmRoll"}
   AltTag = {}
   OddLists = FALSE
   WellTyped = TRUE
